@@ -312,7 +312,14 @@ async fn process_bufs(
             }
         };
         let cc_fut = async { compressor_client.data(bufs_arc).await };
-        let (_, _) = tokio::try_join!(lsc_fut, cc_fut)?;
+        let (lsc_res, cc_res) = tokio::join!(lsc_fut, cc_fut);
+        cc_res?;
+        // Streaming to a `log tail` listener is best effort. If the listener has gone away,
+        // stop streaming for this task; it must not fail the command or truncate its stored log.
+        if let Err(e) = lsc_res {
+            debug!(error = e.to_string(), "Log streaming disabled");
+            *log_stream_client = None;
+        }
     }
     if should_end {
         compressor_client.end().await?;
